@@ -131,43 +131,64 @@ Definition validate_objects_printed (f : vflags) (objs : list vobj) : N :=
     and the hierarchy result accumulated during the iteration. *)
 Record repo_results := mkRR { rr_root : vresult; rr_objects : list vobj; rr_hier : vresult }.
 
-(** validate.rs:129-243 validate_repo, parametrised by the three places where
-    suppress_errors_warnings is (or is not) applied:
-      s_root : to the storage ROOT result before it is printed
-      s_obj  : to every object result
-      s_hier : to the storage HIERARCHY result after the iteration *)
-Definition validate_repo_exit_gen (s_root s_obj s_hier : bool) (f : vflags) (rr : repo_results) : N :=
-  let root := if s_root then suppress f (rr_root rr) else rr_root rr in
-  let fo := if s_obj then f else mkVF (vf_paths f) (vf_no_fixity f) (vf_level f) [] [] in
-  let st := vloop fo (rr_objects rr) vs_init in
-  let hier := if s_hier then suppress f (rr_hier rr) else rr_hier rr in
-  let storage_errors := N.of_nat (List.length (vr_errors root)) + N.of_nat (List.length (vr_errors hier)) in
-  if (0 <? vs_invalid st) || (0 <? storage_errors) then EXIT_VALIDATE_INVALID
-  else if vs_err st then EXIT_VALIDATE_OPERATIONAL
-  else 0.
+(** The storage results as validate_repo holds them when it computes the summary
+    (validate.rs:222-223), line by line (the code of /repo after commit 33c0c45). *)
+Definition validate_repo_root (f : vflags) (rr : repo_results) : vresult :=
+  (* validate.rs:144  self.suppress_errors_warnings(validator.storage_root_result_mut());
+     the ROOT result, complete when repo.validate_repo(..) returns (validate/mod.rs:663-697),
+     is suppressed in place before it is printed (:146-158) and before it is counted (:222) *)
+  suppress f (rr_root rr).
 
-(** The pinned code, line by line. *)
+Definition validate_repo_hier (f : vflags) (rr : repo_results) : vresult :=
+  (* the HIERARCHY result starts empty (IncrementalValidatorImpl::new, validate/mod.rs:1873:
+     StorageValidationResult::new()); the iteration validate.rs:160-199 appends the hierarchy
+     problems to it (validate/mod.rs:1953-2005);
+     validate.rs:201  self.suppress_errors_warnings(validator.storage_hierarchy_result_mut());
+     once, after the iteration *)
+  suppress f (vr_app empty_vr (rr_hier rr)).
+
+(** validate.rs:222-223  storage_errors: the "Storage issues:" line of the summary (:232) *)
+Definition validate_repo_storage_issues (f : vflags) (rr : repo_results) : N :=
+  N.of_nat (List.length (vr_errors (validate_repo_root f rr)))
+  + N.of_nat (List.length (vr_errors (validate_repo_hier f rr))).
+
+(** validate.rs:129-243 validate_repo, exit at :236-240 *)
 Definition validate_repo_exit (f : vflags) (rr : repo_results) : N :=
-  (* :144  self.suppress_errors_warnings(validator.storage_hierarchy_result_mut());
-           the HIERARCHY result (still empty: IncrementalValidatorImpl::new, validate/mod.rs:1862),
-           not the root result *)
-  let hier0 := suppress f empty_vr in
-  (* :146-158 the root result is printed as returned by the library: never suppressed *)
-  let root := rr_root rr in
   (* :160-199 *)
   let st := vloop f (rr_objects rr) vs_init in
-  (* the iteration appended the hierarchy problems (validate/mod.rs:1942-1998);
-     :201 self.suppress_errors_warnings(validator.storage_hierarchy_result_mut()); *)
-  let hier := suppress f (vr_app hier0 (rr_hier rr)) in
-  (* :222-223 *)
-  let storage_errors := N.of_nat (List.length (vr_errors root)) + N.of_nat (List.length (vr_errors hier)) in
   (* :236-240 *)
-  if (0 <? vs_invalid st) || (0 <? storage_errors) then EXIT_VALIDATE_INVALID
+  if (0 <? vs_invalid st) || (0 <? validate_repo_storage_issues f rr) then EXIT_VALIDATE_INVALID
   else if vs_err st then EXIT_VALIDATE_OPERATIONAL
   else 0.
 
-(** The code after the one-line repair (line 144 applied to storage_root_result_mut()). *)
-Definition validate_repo_exit_fixed : vflags -> repo_results -> N := validate_repo_exit_gen true true true.
+(** validate.rs:296-360 Display for DisplayStorageValidationResult: the codes listed in a
+    "Storage <location> is ..." block: every error of the result; its warnings unless -l error
+    (:334).  [None]: the block is not written (should_print false, validate.rs:146 and :203). *)
+Definition storage_block (f : vflags) (r : vresult) : option (list N * list N) :=
+  if should_print f r
+  then Some (vr_errors r, if level_eqb (vf_level f) LvError then [] else vr_warnings r)
+  else None.
+
+(** the "Storage root is ..." block, validate.rs:146-158 (after the suppression of :144) *)
+Definition validate_repo_root_block (f : vflags) (rr : repo_results) : option (list N * list N) :=
+  storage_block f (validate_repo_root f rr).
+(** the "Storage hierarchy is ..." block, validate.rs:203-220 (after the suppression of :201) *)
+Definition validate_repo_hier_block (f : vflags) (rr : repo_results) : option (list N * list N) :=
+  storage_block f (validate_repo_hier f rr).
+
+(** HISTORICAL NOTE, not the model of /repo: validate_repo before commit 33c0c45.  Line 144 read
+    [self.suppress_errors_warnings(validator.storage_hierarchy_result_mut())]: the (still empty)
+    hierarchy result was suppressed a first time and the root result never.  Kept only to
+    state what the repair changed (Proofs/CliFacts.v, section "before the repair"). *)
+Definition validate_repo_exit_before_fix (f : vflags) (rr : repo_results) : N :=
+  let hier0 := suppress f empty_vr in
+  let root := rr_root rr in
+  let st := vloop f (rr_objects rr) vs_init in
+  let hier := suppress f (vr_app hier0 (rr_hier rr)) in
+  let storage_errors := N.of_nat (List.length (vr_errors root)) + N.of_nat (List.length (vr_errors hier)) in
+  if (0 <? vs_invalid st) || (0 <? storage_errors) then EXIT_VALIDATE_INVALID
+  else if vs_err st then EXIT_VALIDATE_OPERATIONAL
+  else 0.
 
 (** validate.rs:135 [repo.validate_repo(..)?]: an Err of the call itself goes to main *)
 Definition validate_repo_cmd_exit (f : vflags) (call : option repo_results) : N :=
